@@ -424,6 +424,40 @@ def run_reload(S):
                 S.add("outcomes", "reload-ok")
 
 
+def run_enum_gaps(S):
+    """Bytes the compiled codec itself produces for an enum field whose number no enumerator names (a default-constructed
+    message of an enum without 0; a value between two enumerators): the run-time codec decodes them to the same number."""
+    from fcp.parser import get_fcp_from_string
+    from fcp.error import Logger
+    from fcp.reflection import get_reflection_schema
+    from fcp import serde
+
+    text = 'version: "3"\nenum State { On = 1, Off = 2, Far = 6, }\nstruct Msg { st @0: State, n @1: u5, }\n'
+    fcp = get_fcp_from_string(text, Logger({})).unwrap()
+    refl = bytes(serde.encode(get_reflection_schema().unwrap(), "Fcp", fcp.reflection()))
+    exe, err = cppbuild.build(cppbuild.generate_cpp(fcp))
+    S.count("states")
+    S.count("executions")
+    if exe is None:
+        return
+    for raw in (0, 3, 4, 5, 7, 1, 6):
+        S.count("transitions")
+        S.count("executions")
+        data = [raw | (9 << 3)]
+        ans = cppbuild.run_requests(exe, [{"op": "dec", "name": "Msg", "bytes": data}, {"op": "dyn_dec", "name": "Msg", "bytes": data}], refl)
+        st, dy = ans[0], ans[1]
+        inp = {"text": text, "struct": "Msg", "bytes": data, "op": "decode an enum number that is %s" % ("an enumerator" if raw in (1, 2, 6) else "not an enumerator")}
+        names = {"On": 1, "Off": 2, "Far": 6}
+        dyv = dy.get("value", {}).get("st") if isinstance(dy.get("value"), dict) else None
+        dyv = names.get(dyv, dyv)
+        if "crash" in dy or "garbled" in dy or st.get("value", {}).get("st") != dyv or st.get("value", {}).get("n") != (dy.get("value") or {}).get("n"):
+            S.add("outcomes", "enum-gap-differs")
+            S.violation("C13.decode", "C13.decode/enum-number-without-enumerator/%s" % ("crash" if "crash" in dy else "value-differs"), inp, expected={"static": st}, actual={"dynamic": dy})
+        else:
+            S.add("outcomes", "enum-gap-ok")
+            S.add("nontrivial", ("enum-gap", raw))
+
+
 def run(prop, tier):
     common.bind_repo()
     r = Run(prop, tier)
@@ -439,6 +473,7 @@ def run(prop, tier):
     r.stats.c["transitions"] += transitions
     if prop == "C13":
         run_reload(r.stats)
+        run_enum_gaps(r.stats)
     if prop == "C03":
         from . import cppschemas
 
